@@ -285,6 +285,12 @@ def shard(P, ver, idx, n, seed):
     pool = V.each_choice(ver) if idx == 0 else []
     optional = T.OPTIONAL[ver]
     for j in range(n):
+        if j == n // 2 and idx % 2 == 0:
+            # half-way through, the application uses the library's other entry points (interactive sessions of every
+            # version, extraction, Red Hat notation, JSON): the ONE fixed metric order must be the same before and after
+            from ..runner import _exercise_entry_points
+            _exercise_entry_points()
+            P.stratum("other-entry-points-used-half-way-through-the-shard")
         prefix = V.rand_prefix(rng, ver)
         if pool:
             m = pool.pop()
